@@ -738,6 +738,13 @@ func c20eps() []c20ep {
 		if err != nil || string(m2) != q {
 			return &c20fail{class: "encoder.Encode-differs-from-encoder.Quote", exp: q, obs: fmt.Sprintf("%s err=%v", c20q(m2), err)}
 		}
+		// into a fresh 16-byte buffer: every restart of the quoting loop happens inside this call
+		// (the pooled buffer used above is usually large already)
+		*n++
+		m3 := make([]byte, 0, 16)
+		if err := encoder.EncodeInto(&m3, s, 0); err != nil || string(m3) != q {
+			return &c20fail{class: "encoder.EncodeInto(fresh-16-byte-buffer)-differs-from-encoder.Quote", exp: q, obs: fmt.Sprintf("%s err=%v", c20q(m3), err)}
+		}
 		return nil
 	})
 	add("ast.NewString.MarshalJSON", 'r', false, func(in []byte, n *int64) *c20fail {
